@@ -215,7 +215,9 @@ pub fn check_case(ctx: &mut Ctx, case: &Case) -> Option<super::model::Outcome> {
         Kind::DebugFrame => {
             entry = "DebugFrame::UnwindTable::next_row";
             let mut sec = DebugFrame::new(bytes, glue::endian(cfg.big));
-            sec.set_address_size(cfg.addr);
+            // a version 4 CIE carries its own address size: give the section a DIFFERENT default
+            // there (it is only the fallback for versions below 4)
+            sec.set_address_size(if cfg.version >= 4 { if cfg.addr == 8 { 4 } else { 8 } } else { cfg.addr });
             sec.set_vendor(vendor);
             let fde = match mcx::guard(|| get_fde(&sec, &bases)) {
                 Ok(Ok(f)) => f,
@@ -355,7 +357,7 @@ fn sub_pairs(tier: Tier) -> Vec<Sub> {
             name,
             nc * nf,
             &format!(
-                "every (CIE program, FDE program) with |CIE| in {}..={}, |FDE| <= {} over the 27-symbol alphabet; each under {} configurations = (CAF,DAF) in {} x vendor {{Default, AArch64}} x {{.debug_frame v4, .eh_frame v1}}, heap storage",
+                "every (CIE program, FDE program) with |CIE| in {}..={}, |FDE| <= {} over the 27-symbol alphabet; each under {} configurations = (CAF,DAF) in {} x vendor {{Default, AArch64}} x {{.debug_frame v4, .eh_frame v1}}, heap storage; the UnwindContext of every table was used before for two other FDEs (one leaving remembered states, rules and an argument size behind, one whose CIE fails after modifying the bottom row); version 4 sections are read with a default address size different from the CIE's own",
                 cmin, cmax, fmax, ncfg, factors_txt
             ),
             move |ctx, i| {
@@ -364,6 +366,9 @@ fn sub_pairs(tier: Tier) -> Vec<Sub> {
                 let cie_p: Vec<Insn> = seq_decode(n, cmin, cmax, ci).into_iter().map(|k| alpha[k].clone()).collect();
                 let fde_p: Vec<Insn> = seq_decode(n, 0, fmax, fi).into_iter().map(|k| alpha[k].clone()).collect();
                 let nontriv = cie_p.len() + fde_p.len() > 0;
+                // every table of this sub-space is evaluated on a context that was used before
+                // (glue::preuse_context), never on a fresh one
+                glue::PREUSE.with(|p| p.set(true));
                 for cfg in &cfgs {
                     let case = Case { cfg: *cfg, cie_p: &cie_p, fde_p: &fde_p, start: START, len: LEN, store: Store::Heap };
                     if let Some(m) = check_case(ctx, &case) {
@@ -377,6 +382,7 @@ fn sub_pairs(tier: Tier) -> Vec<Sub> {
                         }
                     }
                 }
+                glue::PREUSE.with(|p| p.set(false));
             },
         ));
     }
